@@ -9,6 +9,7 @@ mod e_subs;
 mod e_revise;
 mod e_filter;
 mod e_aspace;
+mod e_nodemgmt;
 
 use serde_json::Value;
 use std::io::{BufRead, BufReader, BufWriter, Write};
@@ -42,6 +43,7 @@ fn run_case(engine: &str, case: &Value, out: &mut Obs) {
         "revise" => e_revise::run_case(case, out),
         "filter" => e_filter::run_case(case, out),
         "aspace" => e_aspace::run_case(case, out),
+        "nodemgmt" => e_nodemgmt::run_case(case, out),
         _ => {
             eprintln!("unknown engine {}", engine);
             std::process::exit(2);
